@@ -21,6 +21,8 @@ package main
 
 import (
 	"fmt"
+	"reflect"
+	"sort"
 	"strconv"
 	"strings"
 
@@ -307,6 +309,86 @@ func snapDict(d *dictionary.Dictionary) string {
 	return b.String()
 }
 
+// deepSnap renders EVERYTHING reachable from v, unexported fields included (reflection may read them): a cache, an
+// index or a memo that Merge leaves behind in one of its inputs is a modification of that input, and a later Merge
+// (or any other user of the dictionary) sees it.  nil and empty are told apart; maps are rendered in key order.
+func deepSnap(x interface{}) string {
+	var b strings.Builder
+	deepSnapValue(&b, reflect.ValueOf(x), 0)
+	return b.String()
+}
+
+func deepSnapValue(b *strings.Builder, v reflect.Value, depth int) {
+	if depth > 16 {
+		b.WriteString("<deep>")
+		return
+	}
+	switch v.Kind() {
+	case reflect.Invalid:
+		b.WriteString("<invalid>")
+	case reflect.Ptr, reflect.Interface:
+		if v.IsNil() {
+			b.WriteString("nil")
+			return
+		}
+		b.WriteString("&")
+		deepSnapValue(b, v.Elem(), depth+1)
+	case reflect.Struct:
+		b.WriteString(v.Type().Name() + "{")
+		for i := 0; i < v.NumField(); i++ {
+			b.WriteString(v.Type().Field(i).Name + ":")
+			deepSnapValue(b, v.Field(i), depth+1)
+			b.WriteString(";")
+		}
+		b.WriteString("}")
+	case reflect.Slice:
+		if v.IsNil() {
+			b.WriteString("nil[]")
+			return
+		}
+		fallthrough
+	case reflect.Array:
+		b.WriteString("[" + itoa(v.Len()) + ":")
+		for i := 0; i < v.Len(); i++ {
+			deepSnapValue(b, v.Index(i), depth+1)
+			b.WriteString(",")
+		}
+		b.WriteString("]")
+	case reflect.Map:
+		if v.IsNil() {
+			b.WriteString("nilmap")
+			return
+		}
+		var ents []string
+		it := v.MapRange()
+		for it.Next() {
+			var e strings.Builder
+			deepSnapValue(&e, it.Key(), depth+1)
+			e.WriteString("=>")
+			deepSnapValue(&e, it.Value(), depth+1)
+			ents = append(ents, e.String())
+		}
+		sort.Strings(ents)
+		b.WriteString("map{" + strings.Join(ents, ",") + "}")
+	case reflect.String:
+		b.WriteString(strconv.Quote(v.String()))
+	case reflect.Bool:
+		b.WriteString(strconv.FormatBool(v.Bool()))
+	case reflect.Int, reflect.Int8, reflect.Int16, reflect.Int32, reflect.Int64:
+		b.WriteString(strconv.FormatInt(v.Int(), 10))
+	case reflect.Uint, reflect.Uint8, reflect.Uint16, reflect.Uint32, reflect.Uint64, reflect.Uintptr:
+		b.WriteString(strconv.FormatUint(v.Uint(), 10))
+	case reflect.Chan, reflect.Func, reflect.UnsafePointer:
+		if v.IsNil() {
+			b.WriteString("nil")
+		} else {
+			b.WriteString(v.Kind().String())
+		}
+	default:
+		b.WriteString(v.Kind().String())
+	}
+}
+
 // ---- evaluation ----
 
 func c20Run(dicts []*dictionary.Dictionary, steps [][2]int, pairStyle bool) string {
@@ -324,13 +406,13 @@ func c20Run(dicts []*dictionary.Dictionary, steps [][2]int, pairStyle bool) stri
 		before := make([]string, len(dicts))
 		for k, d := range dicts {
 			if d != nil {
-				before[k] = snapDict(d)
+				before[k] = snapDict(d) + deepSnap(d)
 			}
 		}
 		r, err := dictionary.Merge(dicts[i], dicts[j])
 		var changed []int
 		for k, d := range dicts {
-			if d != nil && snapDict(d) != before[k] {
+			if d != nil && snapDict(d)+deepSnap(d) != before[k] {
 				changed = append(changed, k)
 			}
 		}
